@@ -170,6 +170,10 @@ fn plans_c09(tier: Tier) -> Vec<Plan> {
     c2.topics = s(&["a/b"]);
     c2.filters = s(&["a/b", "a/+"]);
     v.push(Plan { cfg: c2, depth_by_devs: if q { vec![4, 4] } else { vec![6, 6, 6] } });
+    // small outgoing batches (10 per sweep) against the window of 100
+    let mut c3 = c.clone();
+    c3.max_out = 10;
+    v.push(Plan { cfg: c3, depth_by_devs: if q { vec![3] } else { vec![5, 4] } });
     v
 }
 
